@@ -347,7 +347,7 @@ func (p *Prog) classifyCall(x *TX, s *Summary, in ssa.Instruction, c *ssa.CallCo
 		case recv.String() == "k.cdc" || recv.String() == "k.logger":
 			// codec / logger: pure
 		default:
-			if isModuleIface(recvT) {
+			if isModuleIface(recvT) || p.moduleImplements(recvT) {
 				s.unresolved = append(s.unresolved, fmt.Sprintf("invoke %s.%s at %s", recv, m, p.instrPos(in)))
 			} else {
 				p.noteExternalInvoke(x, s, in, c, add)
@@ -487,6 +487,38 @@ func (p *Prog) noteExternalInvoke(x *TX, s *Summary, in ssa.Instruction, c *ssa.
 		pk = n.Obj().Pkg().Path()
 	}
 	add(Effect{Kind: "EXTERNAL", Region: pk, Val: mk("func", "invoke "+typeStr(T)+"."+c.Method.Name()), In: in, Key: capabilityArg(c)})
+}
+
+// moduleImplements: could the dynamic type behind this interface be one the module declares?
+// (An invoke on such an interface may run module code that no call edge shows.)
+func (p *Prog) moduleImplements(T types.Type) bool {
+	it, ok := T.Underlying().(*types.Interface)
+	if !ok || it.NumMethods() == 0 {
+		return false
+	}
+	if T.String() == "error" {
+		return false // error values: what a module-declared error type's methods may do is the new-method rule's business
+	}
+	for _, path := range modulePkgs {
+		sp := p.SPkgs[path]
+		if sp == nil {
+			continue
+		}
+		sc := sp.Pkg.Scope()
+		for _, name := range sc.Names() {
+			tn, ok := sc.Lookup(name).(*types.TypeName)
+			if !ok || tn.IsAlias() {
+				continue
+			}
+			if _, isIface := tn.Type().Underlying().(*types.Interface); isIface {
+				continue
+			}
+			if types.Implements(tn.Type(), it) || types.Implements(types.NewPointer(tn.Type()), it) {
+				return true
+			}
+		}
+	}
+	return false
 }
 
 func isModuleIface(T types.Type) bool {
@@ -669,6 +701,11 @@ func (p *Prog) walkCalls(root *ssa.Function, v walkVisitor) {
 	var visit func(f *ssa.Function, fr frame, anchor *ssa.Call, chain []string, depth int)
 	visit = func(f *ssa.Function, fr frame, anchor *ssa.Call, chain []string, depth int) {
 		if depth > 12 || onStack[f] {
+			if v.unres != nil {
+				// a recursive (or very deep) activation is not followed: its effects with the inner
+				// activation's arguments are not in the summary
+				v.unres(fmt.Sprintf("recursive or too deep call of %s (inner activation not summarised)", funcName(f)), f, anchor, append(append([]string(nil), chain...), funcName(f)))
+			}
 			return
 		}
 		onStack[f] = true
